@@ -42,7 +42,7 @@ func c07Class(err error) string {
 		return "err:already-committed"
 	case errors.Is(err, store.ErrMaxActiveTransactionsLimitExceeded):
 		return "err:max-active"
-	case errors.Is(err, store.ErrMaxConcurrencyLimitExceeded):
+	case errors.Is(err, store.ErrMaxConcurrencyLimitExceeded), c07IsMaxWaitees(err):
 		return "err:max-concurrency" // transient, see c07Retry: never sent to the model, never an oracle verdict
 	case errors.Is(err, store.ErrIllegalTruncationArgument):
 		return "err:illegal-truncation"
@@ -94,7 +94,15 @@ const (
 	c07RetrySleep = 5 * time.Millisecond
 )
 
-func c07Transient(err error) bool { return errors.Is(err, store.ErrMaxConcurrencyLimitExceeded) }
+// back-pressure answers: too many concurrent committers, or too many waiters on a watcher hub (MaxWaitees) — found as an
+// unattributed `genuine-export-rejected` in one thorough run under load; the delivery is simply repeated
+func c07Transient(err error) bool {
+	return errors.Is(err, store.ErrMaxConcurrencyLimitExceeded) || c07IsMaxWaitees(err)
+}
+
+func c07IsMaxWaitees(err error) bool {
+	return err != nil && strings.Contains(err.Error(), "watchers: max waiting limit exceeded")
+}
 
 // c07Retry runs call until its error is not transient (at most c07RetryMax repetitions); it returns the last outcome
 // and the number of repetitions. Safe to use from several goroutines (touches nothing shared).
